@@ -41,6 +41,7 @@ type Violation struct {
 	Tape      []TapeEntry `json:"tape"`
 	Params    map[string]int `json:"params"`
 	Trace     []string    `json:"trace,omitempty"`
+	Outs      []string    `json:"outs,omitempty"`
 	Confirmed string      `json:"confirmed,omitempty"` // set by replay
 	ReplayOut string      `json:"-"`
 }
@@ -59,6 +60,7 @@ type Path struct {
 	asserts   []AssertRec
 	viols     []Violation
 	outs      []string
+	outVals   [][]Value // arguments of each verifOut, for rendering under a model
 	status    string
 	statusMsg string
 	allocHook func(*Term)
@@ -683,6 +685,7 @@ func (in *Interp) snapshotTape() []TapeEntry {
 			model = m
 		}
 	}
+	in.lastModel = model
 	out := make([]TapeEntry, len(p.tape))
 	for i, e := range p.tape {
 		out[i] = TapeEntry{Kind: e.Kind, Note: e.Note}
@@ -716,7 +719,7 @@ func (in *Interp) recordViolation(kind, label, msg string, extra *Term) {
 	}
 	v := Violation{
 		Harness: in.ex.Fn.Name(), Label: label, Kind: kind, Msg: msg,
-		Decisions: decList(p.dec), Tape: tape, Params: in.params,
+		Decisions: decList(p.dec), Tape: tape, Params: in.params, Outs: in.renderOuts(),
 	}
 	if r == Unknown {
 		v.Confirmed = "solver-unknown"
@@ -774,7 +777,7 @@ func (in *Interp) assertProp(c *Term, label string) {
 		in.solver.Pop()
 		viol = 1
 		v := Violation{Harness: in.ex.Fn.Name(), Label: label, Kind: "assert",
-			Decisions: decList(p.dec), Tape: tape, Params: in.params}
+			Decisions: decList(p.dec), Tape: tape, Params: in.params, Outs: in.renderOuts()}
 		for _, e := range in.events {
 			if len(v.Trace) < 80 {
 				v.Trace = append(v.Trace, e.String())
@@ -839,6 +842,15 @@ func (in *Interp) runHarness(fn *ssa.Function) {
 		case engineErr:
 			p.status = "engine-error"
 			p.statusMsg = r.msg
+			if in.ex.Verbose {
+				in.syncPC()
+				in.solver.Push()
+				if in.solver.Check() == Sat {
+					in.snapshotTape()
+					fmt.Printf("  ENGINE-ERROR-WITNESS %s dec=%v outs=%v\n", r.msg, decList(p.dec), in.renderOuts())
+				}
+				in.solver.Pop()
+			}
 		case targetPanic:
 			p.status = "panic"
 			p.statusMsg = in.panicString(r.v)
@@ -874,4 +886,63 @@ func SortedKeys(m map[string]bool) []string {
 	}
 	sort.Strings(ks)
 	return ks
+}
+
+// renderOuts renders the verifOut observations of this path under the model
+// of the last violation.
+func (in *Interp) renderOuts() []string {
+	p := in.path
+	var out []string
+	memo := map[*Term]uint64{}
+	for i, vals := range p.outVals {
+		parts := []string{}
+		if i < len(p.outs) {
+			parts = append(parts, strings.SplitN(p.outs[i], " ", 2)[0])
+		}
+		for _, v := range vals {
+			parts = append(parts, in.renderVal(v, memo))
+		}
+		out = append(out, strings.Join(parts, " "))
+	}
+	if len(out) > 40 {
+		out = out[len(out)-40:]
+	}
+	return out
+}
+
+func (in *Interp) renderVal(v Value, memo map[*Term]uint64) (s string) {
+	defer func() {
+		if r := recover(); r != nil {
+			s = "?"
+		}
+	}()
+	if itf, ok := v.(Iface); ok {
+		if itf.T == nil {
+			return "nil"
+		}
+		v = itf.V
+	}
+	switch x := v.(type) {
+	case *Term:
+		val := in.tc.Eval(x, in.lastModel, memo)
+		if x.W == 0 {
+			return fmt.Sprint(val == 1)
+		}
+		return fmt.Sprint(val)
+	case *SymStr:
+		b := make([]byte, len(x.B))
+		for i, t := range x.B {
+			b[i] = byte(in.tc.Eval(t, in.lastModel, memo))
+		}
+		return fmt.Sprintf("%q", string(b))
+	case string:
+		return fmt.Sprintf("%q", x)
+	case Slice:
+		parts := []string{}
+		for _, e := range x {
+			parts = append(parts, in.renderVal(e, memo))
+		}
+		return "[" + strings.Join(parts, " ") + "]"
+	}
+	return in.outString(v)
 }
